@@ -612,6 +612,7 @@ type acceptItem struct {
 
 // SimListener hands scripted connections and errors to Server.Serve.
 type SimListener struct {
+	lastAt   int64 // instant of the last result Accept handed out
 	mu       sync.Mutex
 	cond     *sync.Cond
 	q        []acceptItem
@@ -671,7 +672,17 @@ func (l *SimListener) Accept() (net.Conn, error) {
 		if len(l.q) > 0 {
 			now := time.Now().UnixNano()
 			it := l.q[0]
+			if it.at <= now && now < l.lastAt+classMod {
+				// at most one result per microsecond: connections that queued up while the
+				// Accept loop was held up are handed out at distinct instants, in queue order,
+				// so that their goroutines never start at one and the same instant
+				l.mu.Unlock()
+				sleepClass(l.class, 0)
+				l.mu.Lock()
+				continue
+			}
 			if it.at <= now {
+				l.lastAt = now
 				l.q = l.q[1:]
 				if it.err != nil {
 					l.Errors++
